@@ -4,7 +4,7 @@ Explicit-state search over *histories of compilations* on the real process-wide 
 
 * Alphabet: the designs of verif/gen/c11_designs.py (accepted ones and rejected ones, one per failure stage).
 * Golden outcome of a letter = its compilation in a fresh interpreter with an empty history.
-* History tree: every sequence of <= DEPTH letters (quick 3; thorough 4 in mode reuse, 3 in mode fresh) is executed in one interpreter; the
+* History tree: every sequence of <= DEPTH letters (quick: 3 in mode reuse, 2 in mode fresh; thorough: 4 / 3) is executed in one interpreter; the
   tree is explored depth-first with os.fork() as the state snapshot (verif/gen/c11_tree.py, a stand-alone
   script started in fresh interpreters with PYTHONHASHSEED=0; first-level/second-level subtrees are
   distributed over pmap workers).  Two modes: "reuse" (same class object compiled again) and "fresh"
@@ -184,7 +184,7 @@ def tree_tasks(moddir, letters, order, golden, depths, plen):
 
 def tree_depths(run):
     """complete history length per mode"""
-    return {"reuse": 4, "fresh": 3} if run.thorough else {"reuse": 3, "fresh": 3}
+    return {"reuse": 4, "fresh": 3} if run.thorough else {"reuse": 3, "fresh": 2}
 
 
 def collect(run, tasks, devs, label):
